@@ -142,6 +142,19 @@ fn adj_in(tables: &TableHandle) -> Vec<Route> {
     out
 }
 
+/// For an iBGP neighbour the daemon injects LOCAL_PREF 100 into announcements that carry none
+/// (rx_update, inject_local_pref_if_absent).  That default is the daemon's own value, not the
+/// attribute from the wire (the corpus only ever sends 200 / 9), so it must not be read as
+/// "the faulty LOCAL_PREF was believed" when the received one was discarded.
+fn without_injected_default(mut routes: Vec<Route>, role: Role) -> Vec<Route> {
+    if matches!(role, Role::Ibgp) {
+        for r in routes.iter_mut() {
+            r.attrs.retain(|(c, v)| !(*c == 5 && *v == pk::Repr::U32(100)));
+        }
+    }
+    routes
+}
+
 struct Outcome {
     /// the session was still Established after the case UPDATE (barrier counted)
     up: bool,
@@ -246,7 +259,7 @@ async fn drive(bytes: &[u8], two_byte: bool, role: Role, exp: &Expect) -> Result
     };
     let mut out = Outcome { up, notif: None, notif_counted: false, panicked: None, routes: Vec::new(), pre: pre.into_iter().collect(), daemon_role };
     if up {
-        out.routes = adj_in(&d.tables);
+        out.routes = without_injected_default(adj_in(&d.tables), role);
         conn.wait_end(true).await;
     } else {
         // what did the daemon say before it went away?
@@ -279,7 +292,7 @@ async fn drive(bytes: &[u8], two_byte: bool, role: Role, exp: &Expect) -> Result
         }
         conn.stream = None;
         out.notif_counted = counter_tx.is_some_and(|c| c.notification.load(Ordering::Relaxed) > 0);
-        out.routes = adj_in(&d.tables);
+        out.routes = without_injected_default(adj_in(&d.tables), role);
     }
     if let Some(e) = take_machinery() {
         return Err(e);
